@@ -47,6 +47,7 @@ fn harvest(prop: &'static str, cfg: &PeerCfg, sim: &mut PeerSim, out: &mut CaseO
     out.count("c05_data_segments", sim.smon.stats.data_segments);
     out.count("c05_retransmitted_segments", sim.smon.stats.retransmitted_segments);
     out.count("c05_zero_window_probes", sim.smon.stats.probes);
+    out.count("c05_keep_alive_segments", sim.smon.stats.keep_alives);
     out.count("c05_window_edge_moved_left", sim.smon.stats.edge_shrank);
     out.count("c05_bytes_content_checked", sim.smon.stats.bytes_checked);
     for t in std::mem::take(&mut sim.violations) {
